@@ -39,9 +39,16 @@ def run(tier, seed):
     log("[tlc] MC_Fri: %d cases (layout, schedule, strategy), %.1fs%s" % (r.distinct, r.wall, "" if r.ok else " ** " + str(r.violation)))
     if not r.ok:
         v.violation("model/" + str(r.violation), "Fri.tla: %s violated" % r.violation, {"tlc": r.out[-3000:]})
+    rv = vlib.run_tlc("MC_Fri", "MC_Fri_olddomain", workers=4, env={"FRI_MAXLN": 6, "FRI_CHK": "1"}, tag="MC_Fri_olddomain", timeout=1200, xmx="4g")
+    if rv.violation != "SchedInvOldDomain":
+        raise vlib.ToolError("self-test: the verifier domain inferred from the degree (pre-fix) is not refuted (%s)" % rv.violation)
+    log("[tlc] pre-fix variant (verifier domain from the degree instead of the number of coefficients) refuted")
     sched = [p for p in r.printed if p.get("kind") == "sched"]
+    # the DefaultProverChannel used for the replay documents that it needs a domain of at least 8 points
+    sched = [s for s in sched if s["ln"] + s["lb"] >= 3]
     if tier == "quick":
-        sched = [s for s in sched if s["ln"] + s["lb"] <= 10][::3]
+        small = [s for s in sched if s["ln"] <= 2]          # degree bounds 0, 1, 3: all of them
+        sched = small[::2] + [s for s in sched if s["ln"] > 2 and s["ln"] + s["lb"] <= 10][::3]
     cases = []
     polys = ["random", "bound", "const", "zero"]
     for i, s in enumerate(sched):
